@@ -11,6 +11,8 @@
    hx_silk stab   <seed> <n>            silk_NLSF_stabilize on synthetic vectors (reference model only)
    hx_silk nlsfenc <seed> <n>           silk_NLSF_encode on synthetic vectors, then silk_NLSF_decode on the emitted indices
    hx_silk pitchenc <seed> <n>          silk_pitch_analysis_core_FLP on synthetic voiced frames (float builds): its lags vs its indices
+   hx_silk codec  <seed> <ngrid> <nrandom> <npk>  whole codec, SILK-only: opus_encode -> opus_decode, then the side
+                                        information both sides hold for the last frame of the packet (float builds)
    hx_silk indices <seed> <npackets>    silk_decode_indices on random range-coder input (then silk_decode_parameters on the result)
    hx_silk dparams <seed> <npackets>    silk_decode_parameters on a decoder state, chained frames
    hx_silk replay                       re-executes the events given on stdin (inputs only are used) */
@@ -23,6 +25,10 @@
 #include "entdec.h"
 #ifndef FIXED_POINT
 #include "SigProc_FLP.h"
+#include "structs_FLP.h"
+#include "opus.h"
+#include "opus_private.h"
+#include <math.h>
 #endif
 
 /* ------------------------------------------------------------------------------------------ */
@@ -603,6 +609,110 @@ static void cmd_dparams(hx_rng *r, int npackets)
    }
 }
 
+
+#ifndef FIXED_POINT
+/* ------------------------------------------------------------------------------------------ */
+/* whole codec: what the encoder quantised (and used itself) vs what a real decoder reconstructs from the packet.
+   The SILK objects are reached through the offsets stored at the start of OpusEncoder / OpusDecoder; the decoder
+   super-struct (silk/dec_API.c) starts with channel_state[2].  Only state the library itself keeps is read. */
+typedef struct { int fs, ch, bw, ms, br, cbr, cvbr, cx, sig, fec, seed, f0, glide; } wc_cfg;
+#define WC_NCFG 13
+static void wc_cfg_arr(const wc_cfg *c, int *a) { a[0]=c->fs; a[1]=c->ch; a[2]=c->bw; a[3]=c->ms; a[4]=c->br; a[5]=c->cbr; a[6]=c->cvbr; a[7]=c->cx; a[8]=c->sig; a[9]=c->fec; a[10]=c->seed; a[11]=c->f0; a[12]=c->glide; }
+static void wc_cfg_from(const int *a, wc_cfg *c) { c->fs=a[0]; c->ch=a[1]; c->bw=a[2]; c->ms=a[3]; c->br=a[4]; c->cbr=a[5]; c->cvbr=a[6]; c->cx=a[7]; c->sig=a[8]; c->fec=a[9]; c->seed=a[10]; c->f0=a[11]; c->glide=a[12]; }
+
+static void wc_side(const char *key, const SideInfoIndices *ix, int nb, int order, int lag, int lg, const opus_int16 *q)
+{
+   int k, gi[MAX_NB_SUBFR], nx[MAX_LPC_ORDER + 1], ltp[MAX_NB_SUBFR], qq[MAX_LPC_ORDER];
+   for (k = 0; k < nb; k++) { gi[k] = ix->GainsIndices[k]; ltp[k] = ix->LTPIndex[k]; }
+   for (k = 0; k <= order; k++) nx[k] = ix->NLSFIndices[k];
+   for (k = 0; k < order; k++) qq[k] = q[k];
+   printf(",\"%s\":{\"st\":%d,\"qo\":%d,\"ip\":%d,\"li\":%d,\"ci\":%d,\"per\":%d,\"lsc\":%d,\"seed\":%d,\"lag\":%d,\"lg\":%d",
+          key, ix->signalType, ix->quantOffsetType, ix->NLSFInterpCoef_Q2, ix->lagIndex, ix->contourIndex, ix->PERIndex, ix->LTP_scaleIndex, ix->Seed, lag, lg);
+   js_arr_i("gi", gi, nb); js_arr_i("ix", nx, order + 1); js_arr_i("ltp", ltp, nb); js_arr_i("q", qq, order);
+   printf("}");
+}
+
+/* runs one stream for npk packets; records the packets in [from, npk) */
+static int exec_wc(const wc_cfg *c, int npk, int from)
+{
+   static const int bws[3] = {OPUS_BANDWIDTH_NARROWBAND, OPUS_BANDWIDTH_MEDIUMBAND, OPUS_BANDWIDTH_WIDEBAND};
+   int err, N, p, i, ch, cfga[WC_NCFG]; long t = 0; double phase = 0.0, ph2 = 0.0;
+   opus_int16 *pcm, *out; unsigned char pkt[1500]; OpusEncoder *enc; OpusDecoder *dec; silk_encoder *se; silk_decoder_state *sd; hx_rng r;
+   if ((c->fs != 8000 && c->fs != 12000 && c->fs != 16000 && c->fs != 24000 && c->fs != 48000) || (c->ch != 1 && c->ch != 2) || c->bw < 0 || c->bw > 2) return 0;
+   if ((c->ms != 20 && c->ms != 40 && c->ms != 60 && c->ms != 10) || c->br < 4000 || c->br > 80000 || c->cx < 0 || c->cx > 10 || c->sig < 0 || c->sig > 2) return 0;
+   if (c->f0 < 50 || c->f0 > 450 || c->glide < 0 || c->glide > 100 || npk < 1 || npk > 2000 || from < 0) return 0;
+   N = c->fs / 1000 * c->ms;
+   enc = opus_encoder_create(c->fs, c->ch, OPUS_APPLICATION_VOIP, &err); if (!enc) return 0;
+   dec = opus_decoder_create(c->fs, c->ch, &err); if (!dec) { opus_encoder_destroy(enc); return 0; }
+   pcm = (opus_int16 *)malloc(sizeof(opus_int16) * N * c->ch); out = (opus_int16 *)malloc(sizeof(opus_int16) * N * c->ch);
+   opus_encoder_ctl(enc, OPUS_SET_FORCE_MODE(MODE_SILK_ONLY));
+   opus_encoder_ctl(enc, OPUS_SET_BANDWIDTH(bws[c->bw])); opus_encoder_ctl(enc, OPUS_SET_MAX_BANDWIDTH(bws[c->bw]));
+   opus_encoder_ctl(enc, OPUS_SET_BITRATE(c->br)); opus_encoder_ctl(enc, OPUS_SET_VBR(!c->cbr)); opus_encoder_ctl(enc, OPUS_SET_VBR_CONSTRAINT(c->cvbr));
+   opus_encoder_ctl(enc, OPUS_SET_COMPLEXITY(c->cx)); opus_encoder_ctl(enc, OPUS_SET_INBAND_FEC(c->fec)); opus_encoder_ctl(enc, OPUS_SET_PACKET_LOSS_PERC(c->fec ? 15 : 0));
+   se = (silk_encoder *)((char *)enc + ((int *)enc)[1]);                  /* OpusEncoder.silk_enc_offset */
+   sd = (silk_decoder_state *)((char *)dec + ((int *)dec)[1]);            /* OpusDecoder.silk_dec_offset -> channel_state[0] */
+   r.s = (uint64_t)c->seed; wc_cfg_arr(c, cfga);
+   for (p = 0; p < npk; p++) {
+      int len, n;
+      for (i = 0; i < N; i++, t++) {
+         double tt = (double)t / c->fs, f0 = c->f0 * (1.0 + 0.45 * sin(2 * M_PI * tt * (0.4 + c->glide * 0.06))), s = 0.0, env = 1.0, nz; int h;
+         if (c->sig == 1) {            /* speech-like: voiced bursts with a falling pitch, unvoiced noise, pauses */
+            double ph = fmod(tt, 0.9);
+            env = ph < 0.45 ? 0.3 + ph : (ph < 0.6 ? 0.0 : (ph < 0.8 ? -1.0 : 0.02));
+            f0 = c->f0 * (1.25 - 0.6 * ph);
+         }
+         phase += f0 / c->fs; if (phase >= 1.0) phase -= 1.0;
+         ph2 += 1.013 * f0 / c->fs; if (ph2 >= 1.0) ph2 -= 1.0;
+         nz = hx_unit(&r) * 2.0 - 1.0;
+         if (c->sig == 2) s = 0.6 * nz;
+         else if (env < 0.0) s = 0.25 * nz;
+         else { for (h = 1; h <= 20 && h * f0 < 0.45 * c->fs; h++) s += sin(2 * M_PI * h * phase) / h; s = env * s * 0.45 + 0.004 * nz; }
+         pcm[i * c->ch] = (opus_int16)(13000 * s);
+         if (c->ch == 2) { double s2 = 0.0; for (h = 1; h <= 12 && h * f0 < 0.45 * c->fs; h++) s2 += sin(2 * M_PI * h * ph2) / h; pcm[i * 2 + 1] = (opus_int16)(13000 * (0.5 * s + (c->sig == 2 ? 0.3 * (hx_unit(&r) - 0.5) : 0.25 * (env < 0 ? 0 : env) * s2))); }
+      }
+      len = opus_encode(enc, pcm, N, pkt, sizeof pkt);
+      if (len < 0) { js_open("wc_err"); js_arr_i("cfg", cfga, WC_NCFG); js_int("pk", p); js_int("enc", len); js_close(); break; }
+      n = opus_decode(dec, pkt, len, out, N, 0);
+      if (n != N) { js_open("wc_err"); js_arr_i("cfg", cfga, WC_NCFG); js_int("pk", p); js_int("dec", n); js_close(); break; }
+      if (p < from || len <= 2) continue;                                  /* a TOC-only packet carries no SILK frame */
+      for (ch = 0; ch < se->nChannelsInternal && ch < 2; ch++) {
+         const silk_encoder_state *ec = &se->state_Fxx[ch].sCmn; const silk_decoder_state *dc = &sd[ch];
+         int nfp = ec->nFramesPerPacket, coded = 1;
+         if (ch == 1 && nfp >= 1 && se->sStereo.mid_only_flags[nfp - 1]) coded = 0;          /* side channel not sent for the last frame */
+         js_open("wc"); js_arr_i("cfg", cfga, WC_NCFG); js_int("pk", p); js_int("len", len); js_int("c", ch); js_int("nch", se->nChannelsInternal);
+         js_int("nf", nfp); js_int("coded", coded); js_int("efs", ec->fs_kHz); js_int("dfs", dc->fs_kHz); js_int("n", ec->nb_subfr); js_int("dn", dc->nb_subfr);
+         wc_side("e", &ec->indices, ec->nb_subfr, ec->predictLPCOrder, ec->prevLag, se->state_Fxx[ch].sShape.LastGainIndex, ec->prev_NLSFq_Q15);
+         wc_side("d", &dc->indices, ec->nb_subfr, ec->predictLPCOrder, dc->lagPrev, dc->LastGainIndex, dc->prevNLSF_Q15);
+         js_close();
+      }
+   }
+   opus_encoder_destroy(enc); opus_decoder_destroy(dec); free(pcm); free(out);
+   return 1;
+}
+
+static void cmd_codec(hx_rng *r, int ngrid, int nrandom, int npk)
+{
+   static const int fss[3] = {8000, 12000, 16000}; static const int starved[] = {6000, 6500, 7000, 7500, 8000, 8500, 9000, 10000};
+   static const int mss[4] = {20, 40, 60, 10}; int it;
+   /* the starved corner: several frames per packet, hard CBR budgets, voiced with a moving pitch */
+   for (it = 0; it < ngrid; it++) {
+      wc_cfg c; memset(&c, 0, sizeof c);
+      c.bw = 2 - (it % 3 == 2 ? hx_u(r, 3) : 0) % 3; c.fs = hx_u(r, 4) ? fss[c.bw] : 48000; c.ch = 1; c.ms = (it & 1) ? 60 : 40;
+      c.br = starved[(it / 2) % 8] - (c.bw == 0 ? 1000 : 0); c.cbr = 1; c.cvbr = 1; c.cx = hx_u(r, 3) ? 10 : hx_range(r, 0, 10);
+      c.sig = hx_u(r, 4) ? 0 : 1; c.fec = 0; c.seed = (int)(hx_next(r) & 0x3fffffff); c.f0 = hx_range(r, 90, 230); c.glide = hx_range(r, 0, 60);
+      exec_wc(&c, npk, 0);
+   }
+   for (it = 0; it < nrandom; it++) {
+      wc_cfg c; memset(&c, 0, sizeof c);
+      c.bw = hx_u(r, 3); c.fs = hx_u(r, 3) ? fss[c.bw] : 48000; c.ch = hx_u(r, 3) ? 1 : 2; c.ms = mss[hx_u(r, 8) ? hx_u(r, 3) : 3];
+      c.br = hx_u(r, 3) ? hx_range(r, 5000, 40000) : hx_range(r, 5000, 11000); if (c.ch == 2) c.br += c.br / 2;
+      c.cbr = hx_u(r, 2); c.cvbr = hx_u(r, 2); c.cx = hx_range(r, 0, 10); c.sig = hx_u(r, 5) < 2 ? 0 : (hx_u(r, 4) ? 1 : 2); c.fec = hx_u(r, 5) == 0;
+      c.seed = (int)(hx_next(r) & 0x3fffffff); c.f0 = hx_range(r, 70, 400); c.glide = hx_range(r, 0, 100);
+      exec_wc(&c, npk, 0);
+   }
+}
+#endif
+
 /* ------------------------------------------------------------------------------------------ */
 /* replay: minimal reader for the events this program writes */
 
@@ -647,6 +757,10 @@ static void cmd_replay(void)
          if ((cb == 0 || cb == 1) && n == cb_of(cb)->order) exec_ne_guarded(cb, a, jint(ln, "mu", 0), jint(ln, "sv", 0), jint(ln, "st", -1));
       }
 #ifndef FIXED_POINT
+      else if (!strncmp(k, "\"wc\"", 4)) {
+         int ca[WC_NCFG], pk = jint(ln, "pk", -1); wc_cfg c;
+         if (jarr(ln, "cfg", ca, WC_NCFG) == WC_NCFG && pk >= 0) { wc_cfg_from(ca, &c); exec_wc(&c, pk + 1, pk); }
+      }
       else if (!strncmp(k, "\"pa\"", 4))
          exec_pa(jint(ln, "fs", 0), jint(ln, "n", 0), jint(ln, "cx", -1), jint(ln, "plag", -1), jint(ln, "per", 0), jint(ln, "dr", 9999), jint(ln, "nz", -1), (unsigned)jint(ln, "seed", 0));
 #endif
@@ -678,9 +792,12 @@ int main(int argc, char **argv)
    else if (!strcmp(cmd, "stab")) cmd_stab(&r, argc > 3 ? atoi(argv[3]) : 1000);
    else if (!strcmp(cmd, "nlsfenc")) cmd_nlsfenc(&r, argc > 3 ? atoi(argv[3]) : 1000);
    else if (!strcmp(cmd, "pitchenc")) cmd_pitchenc(&r, argc > 3 ? atoi(argv[3]) : 1000);
+#ifndef FIXED_POINT
+   else if (!strcmp(cmd, "codec")) cmd_codec(&r, argc > 3 ? atoi(argv[3]) : 8, argc > 4 ? atoi(argv[4]) : 8, argc > 5 ? atoi(argv[5]) : 40);
+#endif
    else if (!strcmp(cmd, "indices")) cmd_indices(&r, argc > 3 ? atoi(argv[3]) : 100);
    else if (!strcmp(cmd, "dparams")) cmd_dparams(&r, argc > 3 ? atoi(argv[3]) : 100);
    else if (!strcmp(cmd, "replay")) cmd_replay();
-   else { fprintf(stderr, "usage: hx_silk tables|gains|gquant|pitch|nlsf|stab|nlsfenc|pitchenc|indices|dparams|replay ...\n"); return 64; }
+   else { fprintf(stderr, "usage: hx_silk tables|gains|gquant|pitch|nlsf|stab|nlsfenc|pitchenc|codec|indices|dparams|replay ...\n"); return 64; }
    return 0;
 }
